@@ -12,6 +12,7 @@
 //	START <slot>
 //	DECIDED <height> <round> <kind> <k> <signer>*k <valid 0|1> <looks 0|1>
 //	DECIDEDWF ...                 the same message while the database refuses every write
+//	DECIDEDW1 ...                 the same message while the database refuses only the first write (the model: as DECIDED)
 //	LOCAL <height> <k> <signer>*k
 //	RESTART
 //
@@ -80,6 +81,7 @@ type op struct {
 	variant string // ok | badsig | badroot | badid | unknown | subq | dup
 	signers []uint64
 	refused bool // the database refuses every write while the message is processed
+	once    bool // the database refuses only the FIRST write (a transient failure; whatever is written again succeeds)
 }
 
 // refusingDB makes the one in-memory badger refuse writes on demand (Set / SetMany / Delete return an
@@ -87,13 +89,25 @@ type op struct {
 type refusingDB struct {
 	basedb.Database
 	refuse  bool
+	once    int // refuse this many further writes, then accept again
 	refused int
+}
+
+func (d *refusingDB) refuses() bool {
+	if d.refuse {
+		return true
+	}
+	if d.once > 0 {
+		d.once--
+		return true
+	}
+	return false
 }
 
 var errRefused = fmt.Errorf("injected write failure")
 
 func (d *refusingDB) Set(prefix, key, value []byte) error {
-	if d.refuse {
+	if d.refuses() {
 		d.refused++
 		return errRefused
 	}
@@ -101,7 +115,7 @@ func (d *refusingDB) Set(prefix, key, value []byte) error {
 }
 
 func (d *refusingDB) SetMany(prefix []byte, n int, next func(int) (basedb.Obj, error)) error {
-	if d.refuse {
+	if d.refuses() {
 		d.refused++
 		return errRefused
 	}
@@ -109,7 +123,7 @@ func (d *refusingDB) SetMany(prefix []byte, n int, next func(int) (basedb.Obj, e
 }
 
 func (d *refusingDB) Delete(prefix, key []byte) error {
-	if d.refuse {
+	if d.refuses() {
 		d.refused++
 		return errRefused
 	}
@@ -480,6 +494,9 @@ func (w *world) decided(o op) {
 	if o.refused {
 		name = "DECIDEDWF"
 	}
+	if o.once {
+		name = "DECIDEDW1"
+	}
 	w.out.Op(name, "%d %d %s %s %d %d", o.h, o.r, o.variant, ids(o.signers), b2i(valid), b2i(looks))
 	w.out.Count("decided-" + o.variant)
 	if o.refused {
@@ -489,9 +506,20 @@ func (w *world) decided(o op) {
 	heightBefore := uint64(w.ctrl.Height)
 	held := w.ctrl.StoredInstances.FindInstance(specqbft.Height(o.h)) != nil
 	recorded := w.historical(o.h) != "-"
-	db.refuse, db.refused = o.refused, 0
+	// the runner saves the decided message of its RUNNING, not yet decided instance a second time after the controller
+	// did (baseConsensusMsgProcessing): a transient failure of the first write must then not lose the record
+	retried := false
+	if st := w.run.GetBaseRunner().State; st != nil && st.RunningInstance != nil && uint64(st.RunningInstance.GetHeight()) == o.h {
+		if dec, _ := st.RunningInstance.IsDecided(); !dec {
+			retried = true
+		}
+	}
+	db.refuse, db.refused, db.once = o.refused, 0, b2i(o.once)
 	err := w.run.ProcessConsensus(logger, msg)
-	db.refuse = false
+	db.refuse, db.once = false, 0
+	if o.once {
+		w.out.Count(fmt.Sprintf("decided-first-write-refused-writes-refused-%d", db.refused))
+	}
 	res := "dec-ok"
 	switch {
 	case err == nil && !valid:
@@ -514,8 +542,11 @@ func (w *world) decided(o op) {
 		w.validRound[o.h][o.r] = true
 	}
 	w.checkStore(before, "decided")
-	if valid && o.refused {
+	if valid && (o.refused || (o.once && !retried)) {
 		w.unsaved[o.h] = true
+	}
+	if o.once {
+		w.out.Count(fmt.Sprintf("decided-first-write-refused-saved-again-by-the-runner-%v", retried))
 	}
 	if valid && !o.refused {
 		w.checkPersisted(o.h, heightBefore, held, recorded, "decided")
@@ -732,6 +763,7 @@ func gen(out *hx.Out, seed uint64, n int) {
 					o.signers[len(o.signers)-1] = o.signers[0]
 				}
 				o.refused = r.Chance(1, 8)
+				o.once = !o.refused && r.Chance(1, 7)
 				w.apply(o)
 				if o.variant == "ok" && o.h > cur {
 					cur = o.h
@@ -847,9 +879,9 @@ func replay(out *hx.Out, path string) {
 		switch f[0] {
 		case "START":
 			w.start(u(f[1]))
-		case "DECIDED", "DECIDEDWF":
+		case "DECIDED", "DECIDEDWF", "DECIDEDW1":
 			s, _ := parseIDs(f[4:])
-			w.decided(op{kind: opDecided, h: u(f[1]), r: u(f[2]), variant: f[3], signers: s, refused: f[0] == "DECIDEDWF"})
+			w.decided(op{kind: opDecided, h: u(f[1]), r: u(f[2]), variant: f[3], signers: s, refused: f[0] == "DECIDEDWF", once: f[0] == "DECIDEDW1"})
 		case "LOCAL":
 			s, _ := parseIDs(f[2:])
 			w.local(u(f[1]), s)
